@@ -143,11 +143,36 @@ func runMarshalCase(a []*Sx) (string, *iso8583.Message, reflect.Value) {
 		o2 = "ok " + xh(p)
 	}
 	target := reflect.New(gtyOf(a[1].List[1]))
+	if len(a) > 3 {
+		// a pre-filled target: Unmarshal writes only the struct fields whose message field is present
+		target = gvalOf(a[1], a[3])
+	}
 	o3 := "err"
 	if err := m.Unmarshal(target.Interface()); err == nil {
 		o3 = "ok " + showGval(a[1], target)
 	}
 	return strings.Join([]string{o1, present, o2, o3}, " | "), m, target
+}
+
+// a value of the struct type st with every pointer allocated and every leaf non-zero
+func fullValueFor(r *Rng, n *gnode, st *Sx) *Sx {
+	var vals []*Sx
+	for _, d := range st.List[1].List {
+		ty := d.List[3]
+		key := declKey(d)
+		sub := n.subs[key]
+		if sub == nil {
+			// the MTI declaration of the message struct
+			vals = append(vals, L(A("s"), X([]byte("0810"))))
+			continue
+		}
+		if sub.comp {
+			vals = append(vals, L(A("p"), fullValueFor(r, sub, ty.List[1])))
+			continue
+		}
+		vals = append(vals, goValueFor(r, sub.kind, ty.String(), genPrimValue(r, sub), false))
+	}
+	return L(A("st"), L(vals...))
 }
 
 // the documented cells of the matrix (Appendix A of DESIGN.md): kind x Go type
@@ -369,6 +394,8 @@ func init() {
 			st = L(A("struct"), L(append([]*Sx{mtiDecl}, st.List[1].List...)...))
 			sv = L(A("st"), L(append([]*Sx{L(A("s"), X([]byte("0100")))}, sv.List[1].List...)...))
 			emit(L(A("marshal"), g.term, L(A("ptr"), st), L(A("p"), sv)))
+			// the same message unmarshalled into a fully populated struct
+			emit(L(A("marshal"), g.term, L(A("ptr"), st), L(A("p"), sv), L(A("p"), fullValueFor(r, root, st))))
 		}
 	}
 
@@ -434,6 +461,38 @@ func init() {
 		}
 		// Unmarshal writes only the struct fields whose message field is present: a pre-filled target keeps the others
 		_ = stV
+		if len(a) > 3 {
+			orig := gvalOf(a[1], a[3])
+			work := gvalOf(a[1], a[3])
+			if err := m.Unmarshal(work.Interface()); err == nil {
+				var walk func(st *Sx, o, w reflect.Value, present map[string]field.Field, path string)
+				walk = func(st *Sx, o, w reflect.Value, present map[string]field.Field, path string) {
+					for i, d := range st.List[1].List {
+						key := declKey(d)
+						if key == "" {
+							continue
+						}
+						pf, isPresent := present[key]
+						ty := d.List[3]
+						if !isPresent {
+							if showGval(ty, o.Field(i)) != showGval(ty, w.Field(i)) {
+								fs = append(fs, Finding{"c11-absent-overwritten", fmt.Sprintf("struct field %s%s was overwritten by Unmarshal though message field %s is absent: %s became %s", path, string(d.List[2].Hex()), key, clip(showGval(ty, o.Field(i))), clip(showGval(ty, w.Field(i))))})
+								return
+							}
+							continue
+						}
+						if c, ok := pf.(*field.Composite); ok && ty.IsL && ty.Head() == "ptr" && ty.List[1].IsL && ty.List[1].Head() == "struct" && !o.Field(i).IsNil() && !w.Field(i).IsNil() {
+							walk(ty.List[1], o.Field(i).Elem(), w.Field(i).Elem(), c.GetSubfields(), path+string(d.List[2].Hex())+".")
+						}
+					}
+				}
+				top := map[string]field.Field{}
+				for id, f := range m.GetFields() {
+					top[fmt.Sprint(id)] = f
+				}
+				walk(stT, orig.Elem(), work.Elem(), top, "")
+			}
+		}
 		return true, fs
 	})
 }
